@@ -179,3 +179,77 @@ func VerifH_C04_FilterStrengths(useSegment int) {
 	}
 	verifapi.Cover(true, "compared")
 }
+
+// VerifH_C04_ReconstructRow: the decoder's macroblock-row reconstruction with all residuals zero - border
+// initialisation (127/129), left-sample rotation, top samples from the row above, top-right samples (next
+// macroblock / replication at the right edge, replication down the sub-block rows), sub-block order,
+// DC variants at the frame edges, chroma, stashing of the bottom row - equals the reference decoder's
+// (x/image vp8 prepareYBR + reconstructMacroblock) for symbolic samples of the row above.
+//   mby: 0 (top row: no row above) or 1; pattern: mode assignment of the two macroblocks
+//   (0..9: both 4x4 with all sub-blocks in that mode; 10..13: both 16x16 in mode pattern-10;
+//    14: first 4x4 with mixed modes, second 16x16; 15: first 16x16, second 4x4 mixed).
+func VerifH_C04_ReconstructRow(mby, pattern int) {
+	dsp.Init()
+	const mbW = 2
+	dec := &Decoder{mbW: mbW, mbH: 2, mbY: mby}
+	dec.yuvB = make([]byte, YUVSize)
+	for i := range dec.yuvB {
+		dec.yuvB[i] = verifapi.U8("workspace_residue")
+	}
+	dec.yuvT = make([]TopSamples, mbW)
+	dec.mbData = make([]MBData, mbW)
+	dec.cacheYStride, dec.cacheUVStride = 16*mbW, 8*mbW
+	dec.cacheY = make([]byte, 32*dec.cacheYStride)
+	dec.cacheU = make([]byte, 16*dec.cacheUVStride)
+	dec.cacheV = make([]byte, 16*dec.cacheUVStride)
+	topY := make([]uint8, 16*mbW)
+	topU := make([]uint8, 8*mbW)
+	topV := make([]uint8, 8*mbW)
+	if mby > 0 {
+		for x := 0; x < mbW; x++ {
+			for i := 0; i < 16; i++ {
+				dec.yuvT[x].Y[i] = verifapi.U8("top_y")
+				topY[16*x+i] = dec.yuvT[x].Y[i]
+			}
+			for i := 0; i < 8; i++ {
+				dec.yuvT[x].U[i] = verifapi.U8("top_u")
+				dec.yuvT[x].V[i] = verifapi.U8("top_v")
+				topU[8*x+i], topV[8*x+i] = dec.yuvT[x].U[i], dec.yuvT[x].V[i]
+			}
+		}
+	}
+	i4 := make([]bool, mbW)
+	modes := make([][16]uint8, mbW)
+	cmode := make([]uint8, mbW)
+	for x := 0; x < mbW; x++ {
+		four := pattern < 10 || (pattern == 14 && x == 0) || (pattern == 15 && x == 1)
+		i4[x] = four
+		for n := 0; n < 16; n++ {
+			switch {
+			case pattern < 10:
+				modes[x][n] = uint8(pattern)
+			case four:
+				modes[x][n] = uint8((n*3 + 1 + x) % 10)
+			default:
+				modes[x][n] = uint8((pattern + x) % 4)
+			}
+		}
+		cmode[x] = uint8((pattern + x) % 4)
+		b := &dec.mbData[x]
+		b.IsI4x4, b.IModes, b.UVMode = four, modes[x], cmode[x]
+	}
+	dec.reconstructRow()
+	wantY, wantCb, wantCr := ref.VerifReconstructRow(mbW, mby, topY, topU, topV, i4, modes, cmode)
+	yo, uvo := mby*16*dec.cacheYStride, mby*8*dec.cacheUVStride
+	for j := 0; j < 16; j++ {
+		for i := 0; i < 16*mbW; i++ {
+			verifapi.Assert(dec.cacheY[yo+j*dec.cacheYStride+i] == wantY[j*16*mbW+i], "reconstructed luma sample equals the reference decoder's")
+		}
+	}
+	for j := 0; j < 8; j++ {
+		for i := 0; i < 8*mbW; i++ {
+			verifapi.Assert(dec.cacheU[uvo+j*dec.cacheUVStride+i] == wantCb[j*8*mbW+i] && dec.cacheV[uvo+j*dec.cacheUVStride+i] == wantCr[j*8*mbW+i], "reconstructed chroma sample equals the reference decoder's")
+		}
+	}
+	verifapi.Cover(true, "row compared")
+}
